@@ -38,7 +38,7 @@ assert len(SYMBOLS) == 118
 
 FRACTIONS = ['1.0', '1', '0.5', '.5', '2', '0.25', '1e-3', '1E-3', '3.5e-2',
              '0.0786', '6.02e-1', '1.234567', '10', '0.7000', '2.50', '1.5-2',
-             '4.d-1', '1.0e+0']
+             '4.d-1', '1.0e+0', '9-1', '5-2', '1+0', '25-2', '3E-1', '7d-1']
 SUFFIXES = ['', '', '.70c', '.80c', '.31c', '.00c', '.50d']
 KEYWORDS = ['nlib=70c', 'gas=1', 'estep=10', 'plib=04p', 'cond=1', 'hlib=24h',
             # the equals sign is a blank to MCNP
@@ -87,7 +87,8 @@ def material(draw, mid):
             labels.add('Z>=100')
         if a < 10 and a > 0:
             labels.add('A-leading-zeros')
-        if any(ch in frac for ch in 'dD') or frac.endswith('-2'):
+        if any(ch in frac for ch in 'dD') or \
+                (frac[-2:-1] in '+-' and frac[-1:].isdigit()):
             labels.add('fortran-fraction')
     if draw(st.integers(0, 5)) == 0:
         entries.append(draw(st.sampled_from(KEYWORDS)))
